@@ -18,6 +18,7 @@ mod probe;
 mod rng;
 mod run;
 mod stats;
+mod supervise;
 mod tok;
 
 use std::collections::HashMap;
@@ -142,7 +143,30 @@ fn cov_json(st: &Stats) -> (J, usize, usize, usize, usize) {
     (J::Arr(rows), tot_reach, tot_obs, tot_can, tot_tr)
 }
 
-fn cmd_check(m: &HashMap<String, String>) -> i32 {
+/// The `check` command proper runs in a child process (`--inner`); this wrapper supervises it
+/// so that a crash or a hang of the code under test becomes a reported, replayable violation.
+fn cmd_check(m: &HashMap<String, String>, raw: &[String]) -> i32 {
+    if m.contains_key("inner") || m.contains_key("no-supervisor") {
+        return cmd_check_inner(m);
+    }
+    let tier = m.get("tier").cloned().or_else(|| std::env::var("VERIF_TIER").ok()).unwrap_or_else(|| "quick".into());
+    let tier = if tier == "thorough" { "thorough" } else { "quick" }.to_string();
+    let seed = m.get("seed").and_then(|s| s.parse().ok()).or_else(|| std::env::var("VERIF_SEED").ok().and_then(|s| s.parse().ok())).unwrap_or(1u64);
+    let runs = get_u64(m, "runs", if tier == "thorough" { 200_000_000 } else { 2_000_000 });
+    let cfg = supervise::SuperviseCfg {
+        seed,
+        runs,
+        tier,
+        evidence: m.get("evidence").cloned().unwrap_or_else(|| "/verif/evidence/C18.json".into()),
+        replays: m.get("replays").cloned().unwrap_or_else(|| "/verif/replays".into()),
+        hang_s: get_u64(m, "hang-s", 300),
+    };
+    let mut args = vec!["check".to_string()];
+    args.extend(raw.iter().cloned());
+    supervise::supervise(args, &cfg)
+}
+
+fn cmd_check_inner(m: &HashMap<String, String>) -> i32 {
     let tier = m.get("tier").cloned().or_else(|| std::env::var("VERIF_TIER").ok()).unwrap_or_else(|| "quick".into());
     let tier = if tier == "thorough" { "thorough" } else { "quick" };
     let seed = m.get("seed").and_then(|s| s.parse().ok()).or_else(|| std::env::var("VERIF_SEED").ok().and_then(|s| s.parse().ok())).unwrap_or(1u64);
@@ -164,8 +188,25 @@ fn cmd_check(m: &HashMap<String, String>) -> i32 {
         }
     };
 
-    // 1. determinism self-test
-    let det = if m.contains_key("no-det") {
+    // 1. the search (first, so that a crash or a hang caused by a broken vek happens where the
+    //    supervising process can attribute it to a run)
+    let inflight = m.get("inflight").map(std::path::PathBuf::from);
+    let set_phase = |p: &str| {
+        if let Some(d) = &inflight {
+            let _ = std::fs::write(d.join("phase"), p);
+        }
+    };
+    set_phase("search");
+    let res = run_batch(seed, 0, runs, workers, &known, true, inflight.as_deref());
+    set_phase("post");
+    let wall_search = t0.elapsed().as_secs_f64();
+    if let Some((run, e)) = &res.harness_error {
+        eprintln!("harness error: run {} of seed {} panicked outside any operation bracket: {}", run, seed, e);
+        return EXIT_HARNESS;
+    }
+
+    // 2. determinism self-test (only meaningful, and only safe to wait for, when the search was clean)
+    let det = if m.contains_key("no-det") || res.first.is_some() {
         None
     } else {
         match determinism_selftest(seed, det_runs) {
@@ -180,13 +221,6 @@ fn cmd_check(m: &HashMap<String, String>) -> i32 {
         }
     };
 
-    // 2. the search
-    let res = run_batch(seed, 0, runs, workers, &known, true);
-    let wall_search = t0.elapsed().as_secs_f64();
-    if let Some((run, e)) = &res.harness_error {
-        eprintln!("harness error: run {} of seed {} panicked outside any operation bracket: {}", run, seed, e);
-        return EXIT_HARNESS;
-    }
 
     // 3. replay self-test of one synthetic history (writer -> file -> parser -> executor round trip)
     let synth = Plan {
@@ -305,7 +339,7 @@ fn cmd_check(m: &HashMap<String, String>) -> i32 {
             "determinism_selftest",
             match &det {
                 Some(d) => J::obj(vec![("runs", J::i(d.0 as i64)), ("fresh_processes", J::i(d.1 as i64)), ("worker_counts", J::Arr(vec![J::i(1), J::i(5), J::i(16)])), ("identical", J::Bool(true)), ("digest", J::s(d.2.clone()))]),
-                None => J::s("skipped (--no-det)"),
+                None => J::s("skipped (--no-det, or a violation was found: the replay in a fresh process is the reproducibility check then)"),
             },
         ),
         ("batch_digest", J::s(format!("{:016x}", res.digest))),
@@ -380,9 +414,44 @@ fn cmd_replay(pos: &[String], m: &HashMap<String, String>) -> i32 {
             return EXIT_HARNESS;
         }
     };
+    let quiet = m.contains_key("quiet");
+    if rf.class == tok::V11_ABNORMAL_TERMINATION {
+        // the recorded failure kills the process: re-execute in a child
+        let errf = std::env::temp_dir().join(format!("vek-sim-replay-{}.err", std::process::id()));
+        let r = supervise::run_isolated(&["exec-plan".into(), path.clone(), "--live".into()], std::time::Duration::from_secs(30), Some(&errf));
+        if !quiet {
+            println!("replaying {} (seed {}, run {}, container {}, {} operations) in a child process", path, rf.seed, rf.run, kind_name(rf.plan.kind), rf.plan.ops.len());
+            if let Ok(t) = std::fs::read_to_string(&errf) {
+                let lines: Vec<&str> = t.lines().collect();
+                for l in lines.iter().skip(lines.len().saturating_sub(40)) {
+                    println!("{}", l);
+                }
+            }
+        }
+        let _ = std::fs::remove_file(&errf);
+        return match r {
+            supervise::Iso::Signal(_) | supervise::Iso::Timeout => {
+                println!("reproduced: the process executing the history {}", r.describe());
+                println!("VIOLATION property=C18 replay={}", path);
+                EXIT_VIOLATION
+            }
+            supervise::Iso::Exit(1) => {
+                println!("a different violation occurs on this tree (the history no longer kills the process but is still flagged)");
+                println!("VIOLATION property=C18 replay={}", path);
+                EXIT_VIOLATION
+            }
+            supervise::Iso::Exit(0) => {
+                println!("not reproduced: the recorded history runs clean on this tree");
+                EXIT_OK
+            }
+            other => {
+                eprintln!("harness error during replay: {}", other.describe());
+                EXIT_HARNESS
+            }
+        };
+    }
     let mut st = Stats::new();
     let o = run::execute(&rf.plan, &mut st, true);
-    let quiet = m.contains_key("quiet");
     if !quiet {
         println!("replaying {} (seed {}, run {}, container {}, {} operations)", path, rf.seed, rf.run, kind_name(rf.plan.kind), rf.plan.ops.len());
         for l in &o.trace {
@@ -419,7 +488,7 @@ fn cmd_digest(m: &HashMap<String, String>) -> i32 {
     let start = get_u64(m, "start", 0);
     let count = get_u64(m, "count", 2048);
     let workers = get_u64(m, "workers", 1) as usize;
-    let res = run_batch(seed, start, count, workers, &[], false);
+    let res = run_batch(seed, start, count, workers, &[], false, None);
     if let Some((run, e)) = &res.harness_error {
         eprintln!("harness error in run {}: {}", run, e);
         return EXIT_HARNESS;
@@ -439,7 +508,10 @@ fn cmd_gen(m: &HashMap<String, String>) -> i32 {
     EXIT_OK
 }
 
-fn cmd_exec_plan(pos: &[String]) -> i32 {
+fn cmd_exec_plan(pos: &[String], m: &HashMap<String, String>) -> i32 {
+    if m.contains_key("live") {
+        tok::set_live(true);
+    }
     let path = match pos.first() {
         Some(p) => p,
         None => return EXIT_HARNESS,
@@ -484,11 +556,11 @@ fn main() {
     }
     let (m, pos) = args_map(&args[1..]);
     let code = match args[0].as_str() {
-        "check" => cmd_check(&m),
+        "check" => cmd_check(&m, &args[1..]),
         "replay" => cmd_replay(&pos, &m),
         "digest" => cmd_digest(&m),
         "gen" => cmd_gen(&m),
-        "exec-plan" => cmd_exec_plan(&pos),
+        "exec-plan" => cmd_exec_plan(&pos, &m),
         other => {
             eprintln!("unknown command {}", other);
             EXIT_HARNESS
